@@ -198,7 +198,7 @@ class C06(Prop):
                         e["args"]["stream"] = 21
                         e["tid"] = 21
         case["req"] = rng.sample(range(n), rng.randint(1, n))
-        case["thr"] = rng.choice([1, 2, 5, 30, 31])
+        case["thr"] = rng.choice([1, 2, 5, 30, 31, 0])        # 0: no gap is "short" (a valid value, not "use the default")
         case["calls"] = [rng.choice(["all", "sub", "empty"]), rng.choice(["all", "sub"])]     # a history of two calls on the same object
         case["subseed"] = rng.randrange(1000)
         case["prefix"] = draw_prefix(rng)
